@@ -76,6 +76,12 @@ def Exc.live : Exc → Option Text | .mk _ _ l _ _ => l
 def Exc.cause : Exc → Cause | .mk _ _ _ c _ => c
 def Exc.mem : Exc → Mems | .mk _ _ _ _ m => m
 
+@[simp] theorem Exc.cls_mk (c a l k m) : (Exc.mk c a l k m).cls = c := rfl
+@[simp] theorem Exc.args_mk (c a l k m) : (Exc.mk c a l k m).args = a := rfl
+@[simp] theorem Exc.live_mk (c a l k m) : (Exc.mk c a l k m).live = l := rfl
+@[simp] theorem Exc.cause_mk (c a l k m) : (Exc.mk c a l k m).cause = k := rfl
+@[simp] theorem Exc.mem_mk (c a l k m) : (Exc.mk c a l k m).mem = m := rfl
+
 /-- `is_remote_exception(e)` -/
 def Exc.isRemote (e : Exc) : Bool := match e.cause with | .remote _ => true | _ => false
 
